@@ -345,6 +345,7 @@ func (analyser *BurndownAnalysis) Initialize(repository *git.Repository) error {
 	analyser.files = map[string]*burndown.File{}
 	analyser.fileAllocator = rbtree.NewAllocator()
 	analyser.fileAllocator.HibernationThreshold = analyser.HibernationThreshold
+	analyser.hibernatedFileName = ""
 	analyser.mergedFiles = map[string]bool{}
 	analyser.mergedAuthor = identity.AuthorMissing
 	analyser.renames = map[string]string{}
